@@ -309,7 +309,7 @@ def nonperiodic_job(args):
     x0 = t0.xyz[0].astype(np.float64)
     ix = _index_sets(t0.topology, seed)
     ix["cutoff"] = 0.5
-    ix["nlist_cutoffs"] = [0.45, 0.8, 1.0]
+    ix["nlist_cutoffs"] = [0.45, 0.55, 0.65, 0.8, 1.0, 1.25]
     radii = np.array([{"H": 0.12, "C": 0.17, "N": 0.155, "O": 0.152, "S": 0.18}.get(a.element.symbol, 0.17) + 0.14 for a in t0.topology.atoms])
     ca = [a.index for a in t0.topology.atoms if a.name == "CA"]
     bends = np.array([_angle64(x0, ca[i - 2], ca[i], ca[i + 2]) for i in range(2, len(ca) - 2)]) if len(ca) > 4 else np.zeros(0)
